@@ -7,8 +7,7 @@
    GOOD MARKUP (good_lineb, a check that can be run; the harness decides it independently and compares): a line without
    ESC and tab that does not end with a backslash, has no tag right after a backslash, and that the undecorated formatter
    accepts from an empty style stack and leaves with an empty style stack (so no tag spans a line break).
-   good_opsb exact w sty [] ops: every line of every written text is good; an empty line is written only under
-   indentation 0 (exact = true) or under an indentation of at most the width (exact = false). *)
+   good_opsb sty ops: every line of every text written by ops is good markup (whatever the indentations). *)
 From Clikit Require Import Base.Prelude Base.Res Base.Term Model.Conv Model.Markup Model.Section
   Proofs.TermLemmas Proofs.MarkupLemmas Proofs.SectionLemmas.
 
@@ -19,22 +18,11 @@ From Clikit Require Import Base.Prelude Base.Res Base.Term Model.Conv Model.Mark
    cursor on the row below; every section's row count equals the rows its visible content occupies; every content line
    is good; the style stack is empty again. *)
 Theorem screen_is_stack : forall w, 1 <= w -> forall f0 ops, is_ansi f0 -> f_stack f0 = [] ->
-  good_opsb true w (f_styles f0) [] ops = true ->
+  good_opsb (f_styles f0) ops = true ->
   exists st f es, srun true w [] f0 ops = Ok (st, f, es) /\
     feed w term_init es = screen w (f_styles f0) st /\ Forall (sec_ok w (f_styles f0)) st /\ fmt_ok (f_styles f0) f.
 Proof. exact screen_is_stack_lemma. Qed.
 Print Assumptions screen_is_stack.
-
-(* An EMPTY line written under an indentation n > 0: add_content keeps n blanks for it (and counts their rows) while
-   Output.write sends no blank at all.  When n <= width the two agree up to trailing blanks of a row - the blanks appear
-   once the section is printed again - and the theorem holds with rows compared up to trailing blanks. *)
-Theorem screen_is_stack_blank_lines : forall w, 1 <= w -> forall f0 ops, is_ansi f0 -> f_stack f0 = [] ->
-  good_opsb false w (f_styles f0) [] ops = true ->
-  exists st f es R, srun true w [] f0 ops = Ok (st, f, es) /\
-    feed w term_init es = scr R /\ Forall2 row_eqv R (stacked w (f_styles f0) st) /\
-    Forall (sec_ok w (f_styles f0)) st /\ fmt_ok (f_styles f0) f.
-Proof. exact screen_is_stack_blank_lemma. Qed.
-Print Assumptions screen_is_stack_blank_lines.
 
 (* The special case of plain texts (no '<', backslash, ESC, tab) and indentation 0, as before the texts became markup:
    for EVERY op sequence the screen is the raw content lines wrapped at the width, and every row count is theirs. *)
@@ -82,7 +70,7 @@ Example c15_tagged_one_row :
 Proof. vm_compute. split; reflexivity. Qed.
 (* the premises of screen_is_stack are satisfiable: tags, an inline style, an escaped '<', indentation, a partial clear *)
 Example c15_good_ops :
-  good_opsb true 10 (f_styles demo_f) []
+  good_opsb (f_styles demo_f)
     [SCreate; SCreate; SIndent 0 3; SWrite 0 t_info true; SWrite 1 t_inline true; SOverwrite 0 t_inline; SClear 1 (Some 1)] = true
   /\ is_ansi demo_f /\ f_stack demo_f = [].
 Proof. vm_compute. repeat split. Qed.
@@ -90,14 +78,15 @@ Example c15_wrapped_partial_clear :
   let ops := [SCreate; SCreate; SWrite 0 (repeat 97%N 25) true; SWrite 1 [98; 98]%N true; SWrite 0 [99]%N true; SClear 0 (Some 2)] in
   match srun true 10 [] demo_f ops with Ok (st, _, es) => rows (feed 10 term_init es) = [[98; 98]%N; []] | Err _ => False end.
 Proof. vm_compute. reflexivity. Qed.
-(* the bound n <= width of screen_is_stack_blank_lines is needed, and the code is wrong beyond it: an empty line under
-   indentation 12 at width 10 is counted as 2 rows (12 blanks) but occupies 1 (nothing is written), so clearing the section
-   moves up one row too many and erases "top" of the section above.  The screen is empty; the stack still has "top". *)
+(* an EMPTY line under an indentation wider than the terminal (12 at width 10) is one row: add_content, like
+   Output.write, gives an empty line no blanks (before /repo c052dce it kept 12 blanks for it, counted 2 rows, and the
+   clear erased "top" of the section above).  Inside the class of screen_is_stack; the screen equals the stack. *)
 Example c15_indented_empty_line_too_wide :
-  let ops := [SCreate; SCreate; SWrite 0 [116;111;112]%N true; SIndent 1 12; SWrite 1 [] true; SClear 1 None] in
+  let ops := [SCreate; SCreate; SWrite 0 [116;111;112]%N true; SIndent 1 12; SWrite 1 [] true; SWrite 1 [121]%N true; SClear 1 (Some 1)] in
   match srun true 10 [] demo_f ops with
-  | Ok (st, _, es) => rows (feed 10 term_init es) = [[]] /\ stacked 10 (f_styles demo_f) st = [[116;111;112]%N]
-                      /\ good_opsb false 10 (f_styles demo_f) [] ops = false
+  | Ok (st, _, es) => feed 10 term_init es = screen 10 (f_styles demo_f) st
+                      /\ stacked 10 (f_styles demo_f) st = [[116;111;112]%N; []]
+                      /\ map sc_lines st = [1; 1] /\ good_opsb (f_styles demo_f) ops = true
   | Err _ => False
   end.
 Proof. vm_compute. repeat split. Qed.
